@@ -463,8 +463,7 @@ def _part_valueset(rep, tier, seed):
         % (n - 1, na, ("every sequence of 4 atoms in 6 modes (constructor only, methods only, right unions only, left unions only, 2+2 split, one seeded random mixed mode); "
                        if thorough else ""), n),
         n_eval, True, distinct=sum(len(s) for s in states.values()),
-        samples=["vs = ValueSet((0, 1)); vs.add_range(3, 4); vs = vs + ValueSet((1, 3)) -> contains exactly 0..4",
-                 "vs = ValueSet(2) + ValueSet((0, 1), (3, 3)) -> contains exactly 0..3"],
+        samples=_samples_valueset(ct),
         note="distinct = number of distinct denoted sets reached (%s); <= %d operations; each evaluation is one program run on the real class followed by %d membership queries"
              % (", ".join("%s: %d" % (k, len(v)) for k, v in sorted(states.items())), max_ops, len(probes)))
 
@@ -488,7 +487,7 @@ def _part_valueset(rep, tier, seed):
         "(also <= 2 x <= 2 atoms over the string and mixed universes): A.is_disjoint(B) and B.is_disjoint(A) == (intersection empty); A + B contains exactly the union (probes -1..%d); "
         "A == B implies equal sets and != is its negation; equal objects hash equally; no operand is changed" % (n - 1, n),
         n_pairs, True, distinct=n_overlap,
-        samples=["ValueSet((0, 6)).is_disjoint(ValueSet((2, 3))) is False", "ValueSet(1, (3, 4)).is_disjoint(ValueSet(2, (5, 6))) is True"],
+        samples=_samples_pairs(ct),
         note="distinct = pairs with a non-empty intersection. Equality is only checked for soundness: the property and the docstrings do not promise that equal sets compare "
              "equal, and %d enumerated pairs denote the same set but compare unequal (e.g. ValueSet(1) vs ValueSet((1, 1)), ValueSet((0, 1), (2, 3)) vs ValueSet((0, 3)))" % eq_inc)
     rep.extra_coverage["C17_equal_sets_comparing_unequal"] = eq_inc
@@ -739,7 +738,7 @@ def _check_table(ct, vmods, real, model, ttext, keys, u, fails, counters, do_val
                                                   "observed": {"substituted": S2 is sub, "default result is AnyValue": isinstance(S, ct.AnyValue)}})
     allowed_real({})
 
-    if do_validator and not has_catch_all:
+    if do_validator and vmods and not has_catch_all:
         assertions, level_constraints, VNA, State = vmods
         _install_table(vmods, real)
 
@@ -781,7 +780,7 @@ def _w_tables(job):
     """job: (ncols, nkeys, u, specials, index iterable spec, seed)"""
     ncols, nkeys, u, specials, spec, sym, seed = job
     ct = _load()
-    vmods = _load_validator()
+    vmods = None if _VALIDATOR_BROKEN else _load_validator()
     cells = _cell_variants(ct, u)
     special_any[0] = ct.AnyValue()
     keys = ["k%d" % i for i in range(nkeys)]
@@ -789,7 +788,7 @@ def _w_tables(job):
     ncell = ncols * nkeys
     fails = _Fails()
     counters = {"tables": 0, "queries": 0, "avf": 0, "validator": 0, "nontrivial": 0}
-    saved = (getattr(vmods[0], "LEVEL_CONSTRAINTS", None), vmods[1].LEVEL_CONSTRAINTS)
+    saved = (getattr(vmods[0], "LEVEL_CONSTRAINTS", None), vmods[1].LEVEL_CONSTRAINTS) if vmods else None
     if spec[0] == "range":
         indices = range(spec[1], spec[2])
     else:
@@ -819,7 +818,8 @@ def _w_tables(job):
                 fails.add("table-exception", lambda: {"what": "unexpected exception from the constraint-table functions", "inputs": {"table": ttext},
                                               "expected": "no exception", "observed": traceback.format_exc(limit=6)})
     finally:
-        vmods[0].LEVEL_CONSTRAINTS, vmods[1].LEVEL_CONSTRAINTS = saved
+        if vmods:
+            vmods[0].LEVEL_CONSTRAINTS, vmods[1].LEVEL_CONSTRAINTS = saved
     # the shared cell objects must not have been modified by any query
     for s, variants, texts in cells:
         for v, t in zip(variants, texts):
@@ -842,8 +842,10 @@ def _split_jobs(ncols, nkeys, u, specials, sym, seed, sample=None, pieces=None):
 
 def _part_tables(rep, tier, seed):
     ct = _load()
-    vmods = _load_validator()
-    _canary_patch(ct, vmods)
+    if not _VALIDATOR_BROKEN:
+        _canary_patch(ct, _load_validator())
+    else:
+        rep.extra_assumptions.append("the validator modules could not be imported (reported as a violation); the one-at-a-time clause was NOT exercised in this run")
     thorough = tier == "thorough"
     total = _Fails()
     plain, special = [], []
@@ -894,7 +896,7 @@ def _part_tables(rep, tier, seed):
         "enumerated table in place of LEVEL_CONSTRAINTS, on every sequence of values for the keys in the fixed order k0, k1, k2 (distinct keys, values in the universe): a value is "
         "accepted and recorded iff the prefix ending with it is an allowed combination, and a rejected value leaves the recorded values unchanged",
         agg["tables"], not sampled, distinct=agg["nontrivial"],
-        samples=["T = [{'k0': ValueSet(0, 1), 'k1': ValueSet((2, 3))}, {'k0': ValueSet(1), 'k1': ValueSet(0)}]: 2 in allowed_values_for(T, 'k1', {'k0': 0}) and is_allowed(T, {'k0': 0, 'k1': 2})"],
+        samples=_samples_tables(ct),
         note="evaluations = tables; on them %d filter/is_allowed queries, %d allowed_values_for calls, %d assert_level_constraint calls. distinct = tables with >= 2 different columns"
              % (agg["queries"], agg["avf"], agg["validator"]))
     agg2, fl, descr = run(special, sp)
@@ -1181,27 +1183,40 @@ def _part_csv(rep, tier, seed):
         "quoting, LF or CRLF; rectangular rows, unique keys. Each file is read by read_constraints_from_csv and by an independent reader of the documented format; compared "
         "cell by cell: AnyValue vs ValueSet, membership on every written/read endpoint +-1 and True/False, and the Python types of the values read (bool vs int)" % (seed, nf),
         nf, False, distinct=nc,
-        samples=['key0,1-3,"""",any\\nkey1,"8,22",TRUE,'],
+        samples=_samples_csv(ct, seed),
         note="distinct = cells compared; files using each feature: %s" % ", ".join("%s: %d" % kv for kv in sorted(feats.items())))
 
     # ---- the shipped level_constraints.csv
     import vc2_conformance
-    import vc2_conformance.level_constraints as lc
+
+    lc = None
+    if not _VALIDATOR_BROKEN:
+        import vc2_conformance.level_constraints as lc
 
     path = os.path.join(os.path.dirname(os.path.abspath(vc2_conformance.__file__)), "level_constraints.csv")
     with open(path, encoding="utf-8", newline="") as f:
         text = f.read()
     model = _m_read_csv(text)
     fl = _Fails()
-    n1 = _compare_csv(ct, ct.read_constraints_from_csv(path), model, fl, {"csv_file": path}, "levelcsv")
-    n2 = _compare_csv(ct, lc.LEVEL_CONSTRAINTS, model, fl, {"csv_file": path, "table": "vc2_conformance.level_constraints.LEVEL_CONSTRAINTS"}, "leveltable")
+    n1 = n2 = 0
+    try:
+        n1 = _compare_csv(ct, ct.read_constraints_from_csv(path), model, fl, {"csv_file": path}, "levelcsv")
+    except Exception:
+        tb = traceback.format_exc(limit=8)
+        fl.add("levelcsv-exception", lambda: {"what": "read_constraints_from_csv raised on the shipped level_constraints.csv", "inputs": {"csv_file": path},
+                                              "expected": "no exception", "observed": tb})
+    if lc is not None:
+        n2 = _compare_csv(ct, lc.LEVEL_CONSTRAINTS, model, fl, {"csv_file": path, "table": "vc2_conformance.level_constraints.LEVEL_CONSTRAINTS"}, "leveltable")
     total.merge(fl)
     ncell = sum(len(c) for c in model)
-    rep.add_eval_fact("C17.level_constraints.csv read by read_constraints_from_csv equals the independent parse cell by cell", fl.count.get("levelcsv-cell", 0) + fl.count.get("levelcsv-shape", 0) + fl.count.get("levelcsv-keys", 0) == 0 and n1 == ncell,
+    rep.add_eval_fact("C17.level_constraints.csv read by read_constraints_from_csv equals the independent parse cell by cell",
+                      sum(v for k, v in fl.count.items() if k.startswith("levelcsv")) == 0 and n1 == ncell,
                       "%d columns, %d cells (%d 'any', %d ditto-derived or plain sets)" % (len(model), ncell, sum(1 for c in model for v in c.values() if v[0] == "any"),
                                                                                         sum(1 for c in model for v in c.values() if v[0] != "any")))
     rep.add_eval_fact("C17.the live LEVEL_CONSTRAINTS table equals the independent parse of level_constraints.csv cell by cell",
                       sum(v for k, v in fl.count.items() if k.startswith("leveltable")) == 0 and n2 == ncell, "%d cells" % n2)
+    if lc is None:
+        return total
 
     # ---- the property's equivalence on the live level table, along seeded random one-at-a-time walks
     keys = []
@@ -1264,6 +1279,46 @@ class _CellSet(object):
         return _cell_member(self.cm, x)
 
 
+# ------------------------------------------------------------------------------------------------
+# samples: a few of the enumerated cases, re-run here so that the evidence shows observed results
+# ------------------------------------------------------------------------------------------------
+def _samples_valueset(ct):
+    atoms = dict((a.text, a) for a in _universe("int7")[0])
+    out = []
+    for texts, mode in (((("(0, 1)", "(3, 4)", "(1, 3)")), (1, ("M", "R"))), (("2", "(0, 1)", "(3, 3)"), ("S", 1)), (("(2, 5)", "5", "(6, 6)"), (0, ("L", "M", "R")))):
+        seq = [atoms[t] for t in texts]
+        vs = _build(ct.ValueSet, seq, mode)
+        out.append("%s -> members among -1..7: %r, str: %s" % (_program_text(seq, mode), [x for x in range(-1, 8) if x in vs], str(vs)))
+    return out
+
+
+def _samples_pairs(ct):
+    out = []
+    for a, b in ((((0, 6),), ((2, 3),)), ((1, (3, 4)), (2, (5, 6))), (((0, 2),), ((3, 4),))):
+        A, B = ct.ValueSet(*a), ct.ValueSet(*b)
+        out.append("%r.is_disjoint(%r) = %r; union members among -1..7: %r" % (A, B, A.is_disjoint(B), [x for x in range(-1, 8) if x in (A + B)]))
+    return out
+
+
+def _samples_tables(ct):
+    T = [{"k0": ct.ValueSet(0, 1), "k1": ct.ValueSet((2, 3))}, {"k0": ct.ValueSet(1), "k1": ct.ValueSet(0)}]
+    S = ct.allowed_values_for(T, "k1", {"k0": 0})
+    return ["T = %r: allowed_values_for(T, 'k1', {'k0': 0}) = %r; is_allowed_combination(T, {'k0': 0, 'k1': v}) for v in 0..4 = %r"
+            % (T, S, [ct.is_allowed_combination(T, {"k0": 0, "k1": v}) for v in range(5)])]
+
+
+def _samples_csv(ct, seed):
+    text, _ = _gen_csv(random.Random(seed * 15485863 + 0))
+    d = tempfile.mkdtemp(prefix="c17_csv_")
+    try:
+        path = os.path.join(d, "sample.csv")
+        with open(path, "w", encoding="utf-8", newline="") as f:
+            f.write(text)
+        return ["csv text %r is read as %r" % (text, ct.read_constraints_from_csv(path))]
+    finally:
+        shutil.rmtree(d, ignore_errors=True)
+
+
 # ================================================================================================
 # observations outside the statement (recorded, never a verdict)
 # ================================================================================================
@@ -1296,8 +1351,18 @@ def _observations(rep):
 # ================================================================================================
 def check_c17(rep, tier, seed):
     _load()
-    _load_validator()
     total = _Fails()
+    try:
+        _load_validator()
+    except Exception:
+        tb = traceback.format_exc(limit=12)
+        if "constraint_table.py" not in tb:
+            raise  # not attributable to the code under check: a checker error
+        # importing the validator loads the level table through read_constraints_from_csv: its failure is a finding
+        _VALIDATOR_BROKEN.append(tb)
+        total.add("levelcsv-exception", {"what": "loading vc2_conformance.level_constraints / decoder.assertions (which reads level_constraints.csv through "
+                                                 "read_constraints_from_csv) raised", "inputs": {"import": "vc2_conformance.decoder.assertions"},
+                                         "expected": "no exception", "observed": tb})
     total.merge(_part_valueset(rep, tier, seed))
     total.merge(_part_tables(rep, tier, seed))
     total.merge(_part_csv(rep, tier, seed))
@@ -1309,6 +1374,16 @@ def check_c17(rep, tier, seed):
             payload["failing_cases_of_this_kind"] = total.count[kind]
             rep.violation("%s-%d" % (kind, i), payload)
     rep.extra_coverage["C17_failing_cases_by_kind"] = dict(total.count)
+    rep.extra_coverage["explanation"] = (
+        "BOUNDED stand-in, not a proof: the real ValueSet/AnyValue class, filter_constraint_table, is_allowed_combination, allowed_values_for, "
+        "assert_level_constraint and read_constraints_from_csv of the tree under check were executed on the enumerated / seeded-random inputs listed under "
+        "bounded_checks and compared with an independent set-semantics model (Python frozensets; own CSV reader); 'evaluations' counts programs, pairs, tables "
+        "and files run on the real code; the two 'obligations' are the ground comparisons of the shipped level_constraints.csv with the independent parse")
+    rep.extra_coverage["trusted_base"] = ["CPython 3.12 (set/frozenset semantics as reference)", "the independent model and CSV reader in /verif/bounded/c17_constraint_table.py"]
+    rep.extra_coverage["checker_cmd"] = "./verif check C17 --tier %s  (bounded enumeration in a %d-process fork pool; no solver involved)" % (tier, NPROC)
+
+
+_VALIDATOR_BROKEN = []
 
 
 REGISTER = {
@@ -1321,8 +1396,11 @@ REGISTER = {
             "(a reversed range is outside the bound; see C17_observations_outside_the_checked_bounds); strings only as single values; bool/IntEnum members only where they "
             "compare as integers; values of mutually incomparable types (a string against an integer range) are outside the bound",
             "equality of ValueSets is checked for soundness only (== implies same set); neither the property nor the docstrings promise that equal sets compare equal, and they do not",
-            "constraint tables: <= 2 columns x <= 3 keys over 0..3 (0..2 for the exhaustive 2x3 case; 2x3 over 0..3 sampled) and 3 columns x 2 keys over 0..2 in the quick tier; "
-            "thorough: 2x3 and 3x2 over 0..3 exhaustive up to column order, 3x3 over 0..1 exhaustive and over 0..2 sampled; string keys",
+            "constraint tables (columns x keys over universe), quick tier: exhaustive 1x1, 1x2, 1x3, 2x1 over 0..3, 2x2 over 0..3 and 3x2 over 0..2 up to column order, 2x3 over 0..1; "
+            "seeded samples of 2x3 over 0..2 (24000 tables) and over 0..3 (6000). Thorough tier: exhaustive 2x2 over 0..3, 2x3 over 0..2, 3x3 over 0..1, 2x2 over 0..4 and 3x2 over 0..2 "
+            "up to column order; seeded samples of 2x3 over 0..3 (250000), 3x2 over 0..3 (300000), 3x3 over 0..2 (100000). Tables with AnyValue cells / missing keys / catch-all "
+            "columns: exhaustive up to 2x2 over 0..2, 2x3 and 3x2 over 0..1; sampled 2x3 over 0..2 (thorough also 3x3 over 0..1 and 3x2 over 0..2). String keys. The exact "
+            "counts of each run are in the domain strings",
             "the validator clause runs the real assert_level_constraint with the module global LEVEL_CONSTRAINTS (in decoder/assertions.py and level_constraints.py) replaced by the "
             "enumerated table (a canary confirms the replacement is effective), on a fresh State per sequence, keys distinct and in one fixed order; sequences that check the same "
             "key twice (as the validator does for per-picture and per-slice values) are NOT covered",
